@@ -41,7 +41,9 @@ func runC11(c *core.Ctx) {
 	c.Rule("R1b", "the effect of an existing MonadIO is never overwritten: the effect field is only initialised inside a freshly allocated MonadIODef", 3)
 	c.Rule("R2", "once per evaluation: evaluator calls the effect exactly once on every path and returns it; Eval delegates once; FlatMap's closure = eval(receiver) → fn(result) → eval(fn's result), each exactly once; Just's closure returns its captured value", 4)
 	c.Rule("R3", "Subscribe routing: everything under OnNext != nil; exactly one of {obOn.Post(doOb), doOb()} chosen by obOn != nil; inside, one evaluation then exactly one of {subOn.Post(doSub), doSub()}; doSub calls OnNext once with the evaluated value", 4)
-	// evaluators: functions from which a call of the effect field is reachable
+	// evaluation: a call of the effect field of a MonadIO, or of a wrapper - a top-level function that calls the effect of
+	// its own receiver exactly once on every path and returns that value (doEffect, Eval). Everything from which an
+	// evaluation is reachable is an evaluator.
 	var direct []*ssa.Function
 	for _, f := range p.Funcs {
 		found := false
@@ -54,15 +56,44 @@ func runC11(c *core.Ctx) {
 			direct = append(direct, f)
 		}
 	}
-	if len(direct) != 1 {
-		c.Unknown("R2", "evaluator", "-", fmt.Sprintf("expected exactly one function invoking the effect field, found %d", len(direct)))
+	if len(direct) == 0 {
+		c.Unknown("R2", "evaluator", "-", "no function invokes the effect field of a MonadIO")
 		return
 	}
-	doEffect := direct[0]
+	ev := &c11evals{wrappers: map[*ssa.Function]bool{}}
+	for changed := true; changed; {
+		changed = false
+		for _, f := range p.Funcs {
+			if ev.wrappers[f] || f.Parent() != nil || f.Pkg != p.Fpgo || len(f.Params) != 1 || f.Signature.Results().Len() != 1 {
+				continue
+			}
+			min, max := core.PathCount(f, func(ins ssa.Instruction) int {
+				if ev.is(ins) {
+					return 1
+				}
+				return 0
+			}, nil)
+			retOK := true
+			core.Instrs(f, func(ins ssa.Instruction) {
+				if r, ok := ins.(*ssa.Return); ok && r.Block() != f.Recover {
+					call, isC := core.Resolve(core.RetVals(r)[0]).(*ssa.Call)
+					if !isC || !ev.is(call) || core.Resolve(ev.subject(call)) != ssa.Value(f.Params[0]) {
+						retOK = false
+					}
+				}
+			})
+			if min == 1 && max == 1 && retOK {
+				ev.wrappers[f] = true
+				changed = true
+			}
+		}
+	}
 	evaluators := map[*ssa.Function]bool{}
 	for _, f := range p.Funcs {
-		if core.Reachable(p, f)[doEffect] {
-			evaluators[f] = true
+		for _, d := range direct {
+			if f == d || core.Reachable(p, f)[d] {
+				evaluators[f] = true
+			}
 		}
 	}
 	// builders: functions (top-level) of package fpgo that allocate a MonadIODef or store to its handler fields, and return *MonadIODef
@@ -131,53 +162,26 @@ func runC11(c *core.Ctx) {
 		c.Unknown("R1b", "anchor", "-", "no initialisation of the effect field found")
 	}
 	// R2 evaluator
-	c.Analysed(core.FuncName(doEffect))
-	{
-		min, max := core.PathCount(doEffect, func(ins ssa.Instruction) int {
-			if callsEffectField(ins) {
-				return 1
-			}
-			return 0
-		}, nil)
-		retOK := false
-		core.Instrs(doEffect, func(ins ssa.Instruction) {
-			if r, ok := ins.(*ssa.Return); ok && len(r.Results) == 1 {
-				if call, ok := core.Resolve(core.RetVals(r)[0]).(*ssa.Call); ok && callsEffectField(call) && core.FieldBase(call.Call.Value) == doEffect.Params[0].Name() {
-					retOK = true
-				}
-			}
-		})
-		c.Check(min == 1 && max == 1 && retOK, "R2", core.FuncName(doEffect), p.Pos(doEffect.Pos()), "calls the receiver's effect exactly once and returns its value", fmt.Sprintf("evaluator calls the effect %d..%d times or does not return its value (cached/duplicated evaluation)", min, max))
+	// every top-level function that invokes the effect field itself must be such a wrapper
+	for _, d := range direct {
+		if d.Parent() != nil {
+			continue // closures (FlatMap's effect, the observe closure) are judged by their own rules below
+		}
+		c.Analysed(core.FuncName(d))
+		c.Check(ev.wrappers[d], "R2", core.FuncName(d), p.Pos(d.Pos()), "calls the receiver's effect exactly once and returns its value", "this function invokes the effect of a MonadIO but is not a once-and-return evaluator of its receiver (cached/duplicated evaluation, or the value is dropped)")
 	}
-	countCalls := func(f *ssa.Function, g *ssa.Function) (int, int) {
-		return core.PathCount(f, func(ins ssa.Instruction) int {
-			if call, ok := ins.(*ssa.Call); ok && core.Callee(&call.Call) == g {
-				return 1
-			}
-			return 0
-		}, nil)
-	}
-	if ev := p.Method(p.Fpgo, "MonadIODef", "Eval"); ev == nil {
+	if evm := p.Method(p.Fpgo, "MonadIODef", "Eval"); evm == nil {
 		c.Unknown("R2", "MonadIODef.Eval", "-", "method not found")
 	} else {
-		c.Analysed(core.FuncName(ev))
-		min, max := countCalls(ev, doEffect)
-		ok := false
-		core.Instrs(ev, func(ins ssa.Instruction) {
-			if r, isR := ins.(*ssa.Return); isR {
-				if call, isC := core.Resolve(core.RetVals(r)[0]).(*ssa.Call); isC && core.Callee(&call.Call) == doEffect && call.Call.Args[0] == ssa.Value(ev.Params[0]) {
-					ok = true
-				}
-			}
-		})
-		c.Check(min == 1 && max == 1 && ok, "R2", "MonadIODef.Eval", p.Pos(ev.Pos()), "evaluates the receiver once and returns the value", fmt.Sprintf("Eval evaluates %d..%d times or returns something else", min, max))
+		c.Analysed(core.FuncName(evm))
+		c.Check(ev.wrappers[evm], "R2", "MonadIODef.Eval", p.Pos(evm.Pos()), "evaluates the receiver once and returns the value", "Eval does not evaluate its receiver exactly once on every path and return that value")
 	}
 	if fm := p.Method(p.Fpgo, "MonadIODef", "FlatMap"); fm == nil || len(fm.AnonFuncs) != 1 {
 		c.Unknown("R2", "MonadIODef.FlatMap", "-", "method or its single closure not found")
 	} else {
 		cl := fm.AnonFuncs[0]
 		c.Analysed(core.FuncName(cl))
-		ok, detail := c11flatMapClosure(p, fm, cl, doEffect)
+		ok, detail := c11flatMapClosure(p, fm, cl, ev)
 		c.Check(ok, "R2", "MonadIODef.FlatMap/closure", p.Pos(cl.Pos()), detail, detail)
 	}
 	if j := p.Func(p.Fpgo, "MonadIOJustGenerics"); j == nil || len(j.AnonFuncs) != 1 {
@@ -203,7 +207,7 @@ func runC11(c *core.Ctx) {
 	if ds == nil {
 		// role-based fallback: the evaluator's caller that takes a *Subscription
 		for f := range evaluators {
-			if f.Parent() == nil && f != doEffect && len(f.Params) == 4 {
+			if f.Parent() == nil && !ev.wrappers[f] && len(f.Params) == 4 {
 				ds = f
 			}
 		}
@@ -213,13 +217,13 @@ func runC11(c *core.Ctx) {
 		return
 	}
 	c.Analysed(core.FuncName(ds))
-	c11subscribe(c, ds, doEffect)
+	c11subscribe(c, ds, ev)
 }
 
-func c11flatMapClosure(p *core.Prog, fm, cl, doEffect *ssa.Function) (bool, string) {
+func c11flatMapClosure(p *core.Prog, fm, cl *ssa.Function, ev *c11evals) (bool, string) {
 	// a closure that only defers a call to a helper: analyse the helper, reading its parameters as the arguments
 	ren := map[string]string{}
-	if tgt, call := core.ThinTarget(p, cl); tgt != nil && tgt != doEffect {
+	if tgt, call := core.ThinTarget(p, cl); tgt != nil && !ev.wrappers[tgt] {
 		for i, prm := range tgt.Params {
 			if i < len(call.Call.Args) {
 				ren[prm.Name()] = core.Path(call.Call.Args[i])
@@ -242,7 +246,7 @@ func c11flatMapClosure(p *core.Prog, fm, cl, doEffect *ssa.Function) (bool, stri
 		if !ok {
 			return
 		}
-		if core.Callee(&call.Call) == doEffect || callsEffectField(call) {
+		if ev.is(call) {
 			evals = append(evals, call)
 		} else if core.Callee(&call.Call) == nil && !call.Call.IsInvoke() {
 			fnCalls = append(fnCalls, call)
@@ -258,11 +262,11 @@ func c11flatMapClosure(p *core.Prog, fm, cl, doEffect *ssa.Function) (bool, stri
 	}
 	emin, emax := total(func(i ssa.Instruction) bool {
 		call, ok := i.(*ssa.Call)
-		return ok && (core.Callee(&call.Call) == doEffect || callsEffectField(call))
+		return ok && ev.is(call)
 	})
 	fmin, fmax := total(func(i ssa.Instruction) bool {
 		call, ok := i.(*ssa.Call)
-		return ok && core.Callee(&call.Call) == nil && !call.Call.IsInvoke()
+		return ok && !ev.is(call) && core.Callee(&call.Call) == nil && !call.Call.IsInvoke()
 	})
 	if emin != 2 || emax != 2 || fmin != 1 || fmax != 1 || len(evals) != 2 || len(fnCalls) != 1 {
 		return false, fmt.Sprintf("FlatMap's effect evaluates %d..%d times (want 2: receiver and fn's result) and applies fn %d..%d times (want 1)", emin, emax, fmin, fmax)
@@ -283,10 +287,10 @@ func c11flatMapClosure(p *core.Prog, fm, cl, doEffect *ssa.Function) (bool, stri
 	if first == nil || second == nil {
 		return false, "fn is not applied to the value of the receiver's evaluation"
 	}
-	if pathOf(first.Call.Args[0]) != fm.Params[0].Name() {
+	if pathOf(ev.subject(first)) != fm.Params[0].Name() {
 		return false, "the first evaluation is not of the receiver"
 	}
-	if core.Resolve(second.Call.Args[0]) != ssa.Value(fnCall) {
+	if core.Resolve(ev.subject(second)) != ssa.Value(fnCall) {
 		return false, "the second evaluation is not of the MonadIO returned by fn"
 	}
 	retOK := false
@@ -381,23 +385,23 @@ func c11findClo(p *core.Prog, root *ssa.Function, pred func(*ssa.Function) bool)
 	return out
 }
 
-func c11subscribe(c *core.Ctx, ds, doEffect *ssa.Function) {
+func c11subscribe(c *core.Ctx, ds *ssa.Function, ev *c11evals) {
 	p := c.P
 	// closures: doSub (calls OnNext) and doOb (evaluates); they may be built by factory helpers
 	bodyOf := func(a *ssa.Function) *ssa.Function {
-		if tgt, _ := core.ThinTarget(p, a); tgt != nil && tgt != doEffect {
+		if tgt, _ := core.ThinTarget(p, a); tgt != nil && !ev.wrappers[tgt] {
 			return tgt
 		}
 		return a
 	}
 	evaluates := func(a *ssa.Function) bool {
-		ev := false
+		found := false
 		core.Instrs(bodyOf(a), func(ins ssa.Instruction) {
-			if call, ok := ins.(*ssa.Call); ok && core.Callee(&call.Call) == doEffect {
-				ev = true
+			if ev.is(ins) {
+				found = true
 			}
 		})
-		return ev
+		return found
 	}
 	delivers := func(a *ssa.Function) bool {
 		on := false
@@ -526,7 +530,7 @@ func c11subscribe(c *core.Ctx, ds, doEffect *ssa.Function) {
 		return core.Resolve(obInParent.outer(v)) == sub.site()
 	}
 	emin, emax := core.PathCount(doOb, func(ins ssa.Instruction) int {
-		if call, ok := ins.(*ssa.Call); ok && core.Callee(&call.Call) == doEffect {
+		if ev.is(ins) {
 			return 1
 		}
 		return 0
@@ -548,7 +552,7 @@ func c11subscribe(c *core.Ctx, ds, doEffect *ssa.Function) {
 	obInParent := &c11clo{mc: ob.mc, body: ob.body, thin: ob.thin}
 	core.Instrs(doOb, func(ins ssa.Instruction) {
 		if st, ok := ins.(*ssa.Store); ok {
-			if call, isC := core.Resolve(st.Val).(*ssa.Call); isC && core.Callee(&call.Call) == doEffect {
+			if call, isC := core.Resolve(st.Val).(*ssa.Call); isC && ev.is(call) {
 				stored = core.Path(st.Addr)
 				storedCell = obInParent.outer(st.Addr)
 			}
@@ -710,4 +714,40 @@ func c11handlerNames(p *core.Prog, ds *ssa.Function, setter string) map[string]b
 		}
 	}
 	return out
+}
+
+
+// c11evals recognises evaluations of a MonadIO: a call of its effect field, or of a wrapper function that does exactly
+// that for its receiver.
+type c11evals struct {
+	wrappers map[*ssa.Function]bool
+}
+
+func (e *c11evals) is(ins ssa.Instruction) bool {
+	call, ok := ins.(*ssa.Call)
+	if !ok {
+		return false
+	}
+	if callsEffectField(call) {
+		return true
+	}
+	g := core.Callee(&call.Call)
+	return g != nil && e.wrappers[g]
+}
+
+// subject: the MonadIO an evaluation evaluates.
+func (e *c11evals) subject(call *ssa.Call) ssa.Value {
+	if callsEffectField(call) {
+		v := core.Unwrap(call.Call.Value)
+		if ld, ok := v.(*ssa.UnOp); ok {
+			if fa, isFA := ld.X.(*ssa.FieldAddr); isFA {
+				return core.FieldOwner(fa)
+			}
+		}
+		return nil
+	}
+	if len(call.Call.Args) > 0 {
+		return call.Call.Args[0]
+	}
+	return nil
 }
